@@ -120,6 +120,55 @@ def build(desc):
     return g.ElfFile(units)
 
 
+def order_cases(ndies, maxunits):
+    """(shape, config index) for every forest with 2..maxunits units."""
+    idx = 0
+    for n in range(2, ndies + 1):
+        for shape in dwbattery.unit_shapes(n, maxunits):
+            if len(shape) >= 2:
+                yield (n, shape, idx % 8)
+                idx += 1
+
+
+def _order_worker(d, chunk, extra):
+    """Caches keyed by unit must not depend on the order in which units are first visited: for every permutation of
+    the units, on a freshly opened file, ask for the parent of every DIE unit by unit in that order."""
+    import zwmodel
+    os.makedirs(dwbattery.DWDIR, exist_ok=True)
+    path = os.path.join(dwbattery.DWDIR, "c02o-%d.o" % os.getpid())
+    out = {"files": 0, "queries": 0, "results": 0, "dies": 0, "bad": []}
+    for n, shape, ci in chunk:
+        elf = build((n, shape, (), ci, 0))
+        elf.write(path)
+        view = dwmodel.View(elf, 1)
+        out["files"] += 1
+        for perm in itertools.permutations(range(len(shape))):
+            for raw in (True, False):
+                sel = ", ".join("%sunit (pos == %d)" % ("raw " if raw else "", k) for k in perm)
+                q = "(%s) entry (|E| [E offset] [E parent offset] add)" % sel
+                rs = d.batch(["open id=po path=" + drv.hx(path), drv.run_cmd(q, i="po", lim=200), "close id=po"])
+                r = rs[1]
+                out["queries"] += 1
+                exp = []
+                for k in perm:
+                    for die in view.units[k].dies:
+                        exp.append("[" + ",".join("c:Dwarf_Off:%d@*" % x.offset for x in ([die] + ([die.parent] if die.parent is not None else []))) + "]@*")
+                got = [zwmodel.wild(x) for x in r.results()]
+                out["results"] += len(got)
+                if r.crash or got != exp or len(r.lines) != len(exp):
+                    out["bad"].append(("order:%s|%s|%s" % (json.dumps([n, shape, ci]), perm, raw),
+                                       "forest %s (config %d), units visited in the order %s on a freshly opened file: `%s` yields %s, stored parents are %s%s" % (
+                                           shape, ci, list(perm), q, got[:12], exp[:12], " (%s)" % (r.crash,) if r.crash else ""),
+                                       {"order": json.dumps([n, shape, ci])}))
+                    break
+    try:
+        os.unlink(path)
+    except OSError:
+        pass
+    out["bad"] = out["bad"][:6]
+    return out
+
+
 def _worker(d, task, extra):
     ndies, thorough, k, m = task
     path = os.path.join(dwbattery.DWDIR, "c02-%d.o" % os.getpid())
@@ -164,6 +213,9 @@ def replay(case):
     ctx = common.Ctx("C02", "quick")
     d = drv.Drv(ctx.bin("zwdrv"), "full")
     try:
+        if "order" in case:
+            n, shape, ci = json.loads(case["order"])
+            return bool(_order_worker(d, [(n, [to_tuple(t) for t in shape], ci)], None)["bad"])
         desc = json.loads(case["desc"])
         if desc[0] != "attrs":
             n, shape, flagged, ci, sib = desc
@@ -192,6 +244,13 @@ def main(ctx):
             ctx.count(k, r[k])
         for key, what, case in r["bad"]:
             ctx.violation(key, what, case)
+    omax = 8 if thorough else 7
+    for r in common.pmap(ctx, _order_worker, common.chunks(order_cases(omax, 3), 6), bins["zwdrv"], "full", timeout=120):
+        for k in ("files", "queries", "results"):
+            ctx.count(k, r[k])
+        ctx.count("unit_order_queries", r["queries"])
+        for key, what, case in r["bad"]:
+            ctx.violation(key, what, case)
     ctx.sample({"forest": "[((),), ((), ((),))]  (two units)", "flagged_leaves": "childless DIEs whose abbreviation claims children", "battery": list(BAT.items)})
     n = ctx.counts.get("files", 0)
     cov = {
@@ -203,7 +262,7 @@ def main(ctx):
         "rule": "state = one generated ELF file (forest shape x flagged-leaf subset x version/offset size x sibling attributes); transition = one battery query executed "
                 "on it and compared, result by result, with the generator's model; distinct = distinct file",
         "bounds": {"max_dies": ndies, "max_units": 3, "versions": [2, 3, 4, 5], "offset_sizes": [4, 8], "dies_checked": ctx.counts.get("dies", 0),
-                   "configs_per_shape": "all 8", "attribute_lists": {"alphabet": [a[:2] for a in ATTR_ALPHABET], "max_entries": alen,
+                   "configs_per_shape": "all 8", "unit_visit_orders": "every permutation of the units of every forest of <= %d DIEs in 2-3 units, raw and cooked, each on a freshly opened file" % omax, "attribute_lists": {"alphabet": [a[:2] for a in ATTR_ALPHABET], "max_entries": alen,
                                                                        "note": "every list, repeated names included, in all 8 configurations"}},
     }
     return ctx.finish("model_checking", cov, [
